@@ -9,20 +9,21 @@ set_option linter.unusedSimpArgs false
 namespace Mqtt.Proofs.Broker
 open Mqtt.Iface.Broker Mqtt.Model.Broker
 open Mqtt.Model.Topics (MemTopics RMsg SNode RNode levels validQos Level)
+open Mqtt.Proofs.Topics (entryLevels)
 open Mqtt.Proofs.Topics (WF RWF abs absR good REntry)
 open Mqtt.Spec.Match (split validName validFilter)
 
 /-! ### `MemTopics.retain` -/
 
 theorem retain_sroot (mt : MemTopics) (r : RMsg) : (mt.retain r).1.sroot = mt.sroot := by
-  unfold MemTopics.retain
+  rw [Mqtt.Proofs.Topics.retain_entry]
   split <;> rfl
 
 theorem retain_rroot (mt : MemTopics) (r : RMsg) :
     (mt.retain r).1.rroot =
-      if r.payload.isEmpty then (mt.rroot.rremoveL (levels r.topic).1 (levels r.topic).2).1
-      else mt.rroot.rinsertL (levels r.topic).1 (levels r.topic).2 r := by
-  unfold MemTopics.retain RNode.rremove RNode.rinsert
+      if r.payload.isEmpty then (mt.rroot.rremoveL (entryLevels r.topic).1 (entryLevels r.topic).2).1
+      else mt.rroot.rinsertL (entryLevels r.topic).1 (entryLevels r.topic).2 r := by
+  rw [Mqtt.Proofs.Topics.retain_entry]
   split <;> rfl
 
 theorem encode_some (m : Msg) (ctr : Nat) (ht : m.p.topic ≠ []) : ∃ r, m.encode ctr = some r := by
@@ -95,7 +96,7 @@ theorem retainStep_clean (b : B) (m : Msg) (hd : m.dirty = false) :
 
 /-- RETAIN = 1, empty payload: the topic's path is removed -/
 theorem retainStep_clear (b : B) (m : Msg) (hr : m.p.retain = true) (hp : m.p.payload = []) :
-    (retainStep b m).1.topics.rroot = (b.topics.rroot.rremoveL (levels m.p.topic).1 (levels m.p.topic).2).1 ∧
+    (retainStep b m).1.topics.rroot = (b.topics.rroot.rremoveL (entryLevels m.p.topic).1 (entryLevels m.p.topic).2).1 ∧
     (retainStep b m).2 = m := by
   unfold retainStep
   simp only [hr, hp, Bool.not_true, Bool.false_eq_true, ↓reduceIte, List.isEmpty_nil]
@@ -105,16 +106,19 @@ theorem retainStep_clear (b : B) (m : Msg) (hr : m.p.retain = true) (hp : m.p.pa
 /-- RETAIN = 1, non-empty payload, a topic whose level walk succeeds: what the
 encoder produced is stored under the topic's path -/
 theorem retainStep_store (b : B) (m : Msg) (hr : m.p.retain = true) (hp : m.p.payload ≠ [])
-    (hl : (levels m.p.topic).2 = true) (ht : m.p.topic ≠ []) :
+    (hl : (entryLevels m.p.topic).2 = true) (ht : m.p.topic ≠ []) :
     ∃ r : RMsg, r.topic = m.p.topic ∧ r.qos = m.p.qos ∧ r.payload = m.p.payload ∧ r.retain = true ∧
       r.dup = m.p.dup ∧
-      (retainStep b m).1.topics.rroot = b.topics.rroot.rinsertL (levels m.p.topic).1 true r := by
+      (retainStep b m).1.topics.rroot = b.topics.rroot.rinsertL (entryLevels m.p.topic).1 true r := by
   have hpe : m.p.payload.isEmpty = false := by cases h : m.p.payload <;> simp_all
+  have hl' := hl
+  rw [Mqtt.Proofs.Topics.entryLevels_snd, Bool.and_eq_true, Bool.not_eq_true'] at hl'
+  obtain ⟨hsys, hlv⟩ := hl'
   obtain ⟨⟨w, m', ctr⟩, he⟩ := encode_some m b.ctr ht
   obtain ⟨h1, h2, h3, h4, h5, _⟩ := encode_fields _ _ _ _ _ he
   refine ⟨toRMsg w, h2, h4, h3, h1.trans hr, h5, ?_⟩
   unfold retainStep
-  simp only [hr, hpe, hl, Bool.not_true, Bool.false_eq_true, ↓reduceIte, he]
+  simp only [hr, hpe, hsys, hlv, Bool.not_true, Bool.or_self, Bool.false_eq_true, ↓reduceIte, he]
   rw [retain_rroot]
   have : (toRMsg w).payload.isEmpty = false := by simp only [toRMsg]; rw [h3]; exact hpe
   simp only [this, Bool.false_eq_true, ↓reduceIte]
@@ -156,11 +160,11 @@ theorem rets_filter (rets : List Mqtt.Spec.Broker.Ret) (t : Bytes) :
     simp [hb, hb2]
 
 /-- (g) one retain step against the specification's retained store, for a
-topic name without empty and '$'-led levels -/
+topic name without empty levels that does not begin with '$' -/
 theorem retainStep_refines (b : B) (m : Msg) (rets : List Mqtt.Spec.Broker.Ret)
     (h : RetInv b.topics.rroot rets) (hg : good m.p.topic = true) (hn : validName m.p.topic = true) :
     RetInv (retainStep b m).1.topics.rroot (Mqtt.Spec.Broker.retainStep { rets := rets } m.p).rets := by
-  obtain ⟨e1, e2⟩ := Mqtt.Proofs.Topics.levels_valid m.p.topic hg
+  obtain ⟨e1, e2⟩ := Mqtt.Proofs.Topics.entryLevels_valid m.p.topic hg
     (Mqtt.Proofs.Topics.validName_validFilter _ hn)
   have ht : m.p.topic ≠ [] := by
     intro h0; rw [h0] at hn; exact absurd hn (by decide)
